@@ -609,7 +609,7 @@ class implicitmodel(timemodel):
         self.dim = self.neq * field.nelem
         self.jacobian = np.zeros([self.dim, self.dim])
         eps = [
-            epsdiff * math.sqrt(np.spacing(1.0)) * np.sum(np.abs(q)) / field.nelem
+            epsdiff * math.sqrt(np.spacing(1.0)) * (np.sum(np.abs(q)) / field.nelem or 1.0) # unit scale for a zero field
             for q in field.data
         ]
         self.calcrhs(field)
